@@ -212,6 +212,13 @@ def check_state(st, out, pw, gr, version):
         bad.append(('datetime', 'got=%r' % val('datetime')))
     expect('snoopy_version', version)
     expect('filename', '/bin/prog'); expect('cmdline', 'prog arg')
+    # evaluated again, in reverse order, after all the others: same answer (clock readings aside)
+    for k, v2 in out.get('again', {}).items():
+        name = bytes.fromhex(k).decode('latin-1')
+        if name.startswith(('timestamp', 'datetime')):
+            continue
+        if bytes.fromhex(v2['v']) != ds[name][1]:
+            bad.append((name, 'second evaluation (after every other data source had run) gave %r, the first gave %r' % (bytes.fromhex(v2['v'])[:40], ds[name][1][:40])))
     # cgroup
     cg = unh(f, 'cgroup').decode('latin-1').splitlines()
     for sel in ('0', '4', '77', '1', '9', '10'):
